@@ -34,32 +34,34 @@ type Obligation struct {
 	SMTFile string
 	relaxed bool   // counterexample search mode: drop quantified assumptions
 	noAxiom string // lemma being proved: exclude itself and later lemmas
-	Support bool // support obligation (requires/inv/frame/cover/safe) as opposed to a tagged clause
+	Support bool   // support obligation (requires/inv/frame/cover/safe) as opposed to a tagged clause
 }
 
 type FnCtx struct {
-	eng       *Engine
-	fn        *ssa.Function
-	contract  *Contract
-	facts     []*Term
-	obls      []*Obligation
-	dry       int
-	unknown   map[string]bool
-	used      map[string]bool // callee contract keys used
-	trusted   map[string]bool
-	errs      []string
-	factSeen  map[int]bool
-	ordinals  map[ssa.Instruction]int
-	callOrd   map[ssa.Instruction]string
-	top       *Frame
-	ghostVals map[string]*Val
-	notes     []string
-	inlined   map[string]bool
-	guardOrd  map[string]map[ssa.Instruction]int
-	unlockSnap *State
-	lockSnap  *State // state right after the most recent lock acquisition (at_lock)
-	preEnv    *Env // contract environment at function entry (replay)
-	postEnv   *Env // contract environment at the merged exit (replay)
+	eng           *Engine
+	fn            *ssa.Function
+	contract      *Contract
+	facts         []*Term
+	obls          []*Obligation
+	dry           int
+	unknown       map[string]bool
+	used          map[string]bool // callee contract keys used
+	trusted       map[string]bool
+	errs          []string
+	factSeen      map[int]bool
+	ordinals      map[ssa.Instruction]int
+	callOrd       map[ssa.Instruction]string
+	top           *Frame
+	ghostVals     map[string]*Val
+	notes         []string
+	inlined       map[string]bool
+	readonlyExt   map[string]bool
+	counterWrites map[string]string // counter ghost map -> who writes it (callee contract / ghost assignment)
+	guardOrd      map[string]map[ssa.Instruction]int
+	unlockSnap    *State
+	lockSnap      *State // state right after the most recent lock acquisition (at_lock)
+	preEnv        *Env   // contract environment at function entry (replay)
+	postEnv       *Env   // contract environment at the merged exit (replay)
 }
 
 type exitRec struct {
@@ -68,31 +70,31 @@ type exitRec struct {
 }
 
 type loopCut struct {
-	spec      *LoopSpec
-	variant   *Term
-	progress  []*Term
-	ordinal   int
-	header    *ssa.BasicBlock
-	entryOld  *State
+	spec     *LoopSpec
+	variant  *Term
+	progress []*Term
+	ordinal  int
+	header   *ssa.BasicBlock
+	entryOld *State
 }
 
 type Frame struct {
-	c       *FnCtx
-	fn      *ssa.Function
-	vals    map[ssa.Value]*Val
-	isCell  map[*ssa.Alloc]bool
-	exits   []exitRec
-	prefix  string
-	depth   int
-	cfg     *cfgInfo
-	cuts    map[*ssa.BasicBlock]*loopCut
-	entry   *State // state at function entry (for old())
-	vars    map[string]*Val // contract variables: params (entry values), receiver, ghost params
-	allocAt map[*ssa.Alloc]bool
-	contract *Contract
-	rangeMaps map[*ssa.Range]*Val
+	c           *FnCtx
+	fn          *ssa.Function
+	vals        map[ssa.Value]*Val
+	isCell      map[*ssa.Alloc]bool
+	exits       []exitRec
+	prefix      string
+	depth       int
+	cfg         *cfgInfo
+	cuts        map[*ssa.BasicBlock]*loopCut
+	entry       *State          // state at function entry (for old())
+	vars        map[string]*Val // contract variables: params (entry values), receiver, ghost params
+	allocAt     map[*ssa.Alloc]bool
+	contract    *Contract
+	rangeMaps   map[*ssa.Range]*Val
 	doneClauses map[ssa.Instruction]bool
-	fnConsts map[string]*ssa.Function // function constants seen (candidates for dynamic calls)
+	fnConsts    map[string]*ssa.Function // function constants seen (candidates for dynamic calls)
 }
 
 func (c *FnCtx) errorf(f string, a ...interface{}) {
@@ -179,10 +181,10 @@ func (c *FnCtx) oblige(fr *Frame, st *State, kind, name string, goal *Term, tags
 // ---- CFG analysis
 
 type cfgInfo struct {
-	rpo      []*ssa.BasicBlock
-	headers  []*ssa.BasicBlock // loop headers in source order
-	loopOf   map[*ssa.BasicBlock]map[*ssa.BasicBlock]bool
-	ordinal  map[*ssa.BasicBlock]int
+	rpo     []*ssa.BasicBlock
+	headers []*ssa.BasicBlock // loop headers in source order
+	loopOf  map[*ssa.BasicBlock]map[*ssa.BasicBlock]bool
+	ordinal map[*ssa.BasicBlock]int
 }
 
 func isBackEdge(from, to *ssa.BasicBlock) bool { return to.Dominates(from) }
